@@ -275,6 +275,19 @@ def check(ctx):
     oracle = FW.LAYOUT
     found_senders = set()
     n_variants = 0
+    # one command = one packet: no sender hands its packet to the link from inside a loop (a retry after an exception repeats a command
+    # the link may already have accepted - a relative go-to is then flown twice)
+    for path in MODULES:
+        for f in m.mod(path).all_funcs():
+            sp_calls = [c for c in walk_own(f.node) if method_call(c, 'send_packet')]
+            if not sp_calls:
+                continue
+            gfn = cfg_of(f)
+            looped = []
+            for ln in [x for x in gfn.nodes if x.kind in ('for', 'while')]:
+                body_ids = {b.id for b in gfn.loop_body_nodes(ln)}
+                looped += [c for c in sp_calls if (gfn.node_of(c) is not None and gfn.node_of(c).id in body_ids)]
+            ctx.inst('R2b', f, 'one-transmission-per-call', not looped, '%s transmits from inside a loop at line %s' % (f.qualname, sorted({c.lineno for c in looped})))
     for path in MODULES:
         mod = m.mod(path)
         for f in mod.all_funcs():
